@@ -23,7 +23,7 @@ PROFILE = _gen.profile(sends=(0, 14), max_sessions=4, p_end=0.3,
                        p_app_disconnect=0.08, p_disconnect_all=0.0,
                        p_upgrade=0.6, p_reject=0.05, p_handler_fault=0.05,
                        client_msgs=(0, 2), p_pong_misbehave=0.05,
-                       p_overlap_polls=0.3)
+                       p_overlap_polls=0.3, p_burst=0.25)
 
 
 def gen(rng, tier, i):
